@@ -188,6 +188,30 @@ def edit(db, k):
             pass
 
 
+def global_state():
+    """Process-wide interpreter / pyparsing settings a parse has no business leaving changed: every one of them alters
+    what later parses do (a raised recursion limit turns a RecursionError into a database, packrat or other default
+    whitespace characters change what the grammar accepts, ...)."""
+    import decimal
+    import locale
+    import pyparsing as pp
+    return {
+        'sys.getrecursionlimit()': sys.getrecursionlimit(),
+        'pyparsing DEFAULT_WHITE_CHARS': pp.ParserElement.DEFAULT_WHITE_CHARS,
+        'pyparsing packrat': bool(getattr(pp.ParserElement, '_packratEnabled', False)),
+        'pyparsing left recursion': bool(getattr(pp.ParserElement, '_left_recursion_enabled', False)),
+        'pyparsing verbose_stacktrace': bool(getattr(pp.ParserElement, 'verbose_stacktrace', False)),
+        'gc.isenabled()': gc.isenabled(),
+        'gc.get_threshold()': gc.get_threshold(),
+        'threading.stack_size()': threading.stack_size(),
+        'decimal context': (decimal.getcontext().prec, decimal.getcontext().rounding),
+        'locale': locale.setlocale(locale.LC_ALL),
+        'os.getcwd()': os.getcwd(),
+        'os.environ': hash(frozenset(os.environ.items())),
+        'sys.path': tuple(sys.path),
+    }
+
+
 def run_history(docs, nthreads, case):
     """docs: [(text, props)].  Returns (viols, stats)."""
     global _BASELINE
@@ -198,6 +222,14 @@ def run_history(docs, nthreads, case):
     def V(bucket, msg):
         viols.append(Viol(bucket, msg, case, size=size))
     actions0 = grammar_actions()
+    globals0 = global_state()
+
+    def check_globals(phase):
+        now = global_state()
+        for k, v in now.items():
+            if v != globals0[k]:
+                V(f'c11:global-state:{k}', f'after the {phase} phase {k} is {v!r}, it was {globals0[k]!r} before the library was called')
+                globals0[k] = v
     pristine = [P.get(t, p) for t, p in docs]
     # sequential
     results = []
@@ -235,6 +267,7 @@ def run_history(docs, nthreads, case):
         del db
         if out != pristine[i]:
             V(f'c11:after-edit:{_what(out, pristine[i])}', f'document {i} parsed after earlier results were edited gives {_short(out)}, pristine {_short(pristine[i])}')
+    check_globals('sequential')
     # threads
     if nthreads >= 2:
         outs = [None] * nthreads
@@ -265,6 +298,7 @@ def run_history(docs, nthreads, case):
                 if o != pristine[j]:
                     V(f'c11:threads:{_what(o, pristine[j])}', f'document {j} parsed in thread {k} of {nthreads} gives {_short(o)}, pristine {_short(pristine[j])}')
         del outs, ths
+        check_globals('threads')
     # grammar singletons
     actions1 = grammar_actions()
     grown = {k: (actions0[k], v) for k, v in actions1.items() if actions0.get(k) != v}
